@@ -9,11 +9,11 @@ VL == INSTANCE VerdictLib
 
 VARIABLES l, tid, p, attempt, lastWait, verdicts
 tvars == <<l, tid, p, attempt, lastWait, verdicts>>
+AddV(vs) == IF VL!Record(vs) THEN verdicts + Len(vs) ELSE verdicts   \* verdicts: a counter; the records live in a TLC register
 
 B == INSTANCE Backoff WITH Params <- {}, Ns <- {}, MaxOps <- 0, Emit <- FALSE, d <- 0, hist <- <<>>
 
 Verdict(clause, sig, detail) == [prop |-> "C19", clause |-> clause, sig |-> sig, tid |-> tid, idx |-> l, detail |-> detail]
-AddV(vs) == VL!AddVTo(verdicts, vs)
 Ev(n) == l <= Len(Trace) /\ Trace[l].ev = n
 
 T_Reset == /\ Ev("reset")
@@ -45,11 +45,11 @@ T_Op == /\ Ev("op")
         /\ l' = l + 1 /\ UNCHANGED <<tid, p>>
 
 T_End == /\ Ev("end")
-         /\ PrintT(<<"VERDICTS", ToJson(verdicts)>>)
+         /\ PrintT(<<"VERDICTS", ToJson(VL!All)>>)
          /\ PrintT(<<"CONSUMED", l>>)
          /\ l' = l + 1 /\ UNCHANGED <<tid, p, attempt, lastWait, verdicts>>
 
-TraceInit == l = 1 /\ tid = 0 /\ p = [base |-> 0, factor |-> 0, cap |-> 0, nojitter |-> TRUE] /\ attempt = 0 /\ lastWait = -1 /\ verdicts = <<>>
+TraceInit == l = 1 /\ tid = 0 /\ p = [base |-> 0, factor |-> 0, cap |-> 0, nojitter |-> TRUE] /\ attempt = 0 /\ lastWait = -1 /\ verdicts = 0 /\ VL!InitV
 TraceNext == T_Reset \/ T_Op \/ T_End
 TraceSpec == TraceInit /\ [][TraceNext]_tvars
 =============================================================================
